@@ -312,6 +312,12 @@ func chaosPass(c *choice.Src, o engine.Opt, out *engine.Out, skip bool) *chaosWo
 				w.fault("lifecycle.second_start")
 			}
 			n.round = 1
+			if n.m.ph == running && c.Bool(1, 3, "start.shortseed") {
+				// a second Start is refused whatever its argument
+				l := []int{0, 1, 31}[c.Choose(3, "start.shortseed.len")]
+				cw.do(n, "Start", 0, nil, func() error { return n.st.Start(make([]byte, l)) })
+				break
+			}
 			cw.do(n, "Start", 0, nil, func() error { return n.st.Start(w.seeds[n.idx]) })
 		case 2:
 			switch {
